@@ -2,6 +2,7 @@
 #![feature(generic_const_exprs)]
 #![allow(incomplete_features)]
 
+mod families;
 mod play;
 
 fn main() {
@@ -13,6 +14,7 @@ fn main() {
     let args = wv::Args(argv[2..].to_vec());
     match argv[1].as_str() {
         "play" => play::run(&args),
+        "families" => families::run(&args),
         other => {
             eprintln!("unknown command {}", other);
             std::process::exit(2);
